@@ -17,7 +17,16 @@
 package xds
 
 import (
+	"strings"
+
+	discovery "github.com/envoyproxy/go-control-plane/envoy/service/discovery/v3"
+
+	credscontroller "istio.io/istio/pilot/pkg/credentials"
 	"istio.io/istio/pilot/pkg/model"
+	"istio.io/istio/pilot/pkg/model/credentials"
+	securitymodel "istio.io/istio/pilot/pkg/security/model"
+	"istio.io/istio/pkg/spiffe"
+	"istio.io/istio/pkg/util/sets"
 	"istio.io/istio/pkg/verif"
 )
 
@@ -176,4 +185,194 @@ func ctNewPushQueue() {
 	p := NewPushQueue()
 	verif.Ensures("well-formed-and-empty", pqInv(p) && len(p.queue) == 0 && !p.shuttingDown && verif.Fresh(p))
 	verif.Ensures("nothing-owed", verif.Forall(func(c *Connection) bool { return pqOwed(p, c) == nil && !pqProcessing(p, c) }))
+}
+
+// ---------------------------------------------------------------------------------------------
+// C11: config and secrets are released only to the identity entitled to them
+// ---------------------------------------------------------------------------------------------
+
+// The SubjectAccessReview behind Authorize is not decided here: it is an uninterpreted predicate
+// of (controller, service account, namespace).
+//
+//verif:pure-method istio.io/istio/pilot/pkg/credentials.Controller.Authorize
+
+// idMatches: the credential identity raw parses as a SPIFFE identity that agrees with the namespace
+// and service account the proxy claims, wherever it claims one.
+func idMatches(proxy *model.Proxy, raw string) bool {
+	id, err := spiffe.ParseIdentity(raw)
+	return err == nil &&
+		(proxy.ConfigNamespace == "" || id.Namespace == proxy.ConfigNamespace) &&
+		(proxy.Metadata.ServiceAccount == "" || id.ServiceAccount == proxy.Metadata.ServiceAccount)
+}
+
+//verif:contract checkConnectionIdentity
+//verif:prop C11
+func ctCheckConnectionIdentity(proxy *model.Proxy, identities []string) {
+	verif.Requires("proxy-with-metadata", proxy != nil && proxy.Metadata != nil)
+	id, err := checkConnectionIdentity(proxy, identities)
+	verif.Ensures("identity-or-error", (id == nil) == (err != nil))
+	// from the statement: "obtains configuration only as a proxy of the namespace and service account its credential proves"
+	verif.Ensures("identity-is-a-matching-credential", id == nil || verif.Exists(func(i int) bool {
+		if !(0 <= i && i < len(identities)) || !idMatches(proxy, identities[i]) {
+			return false
+		}
+		parsed, _ := spiffe.ParseIdentity(identities[i])
+		return *id == parsed
+	}))
+	verif.Ensures("claimed-namespace-is-proved", id == nil || proxy.ConfigNamespace == "" || id.Namespace == proxy.ConfigNamespace)
+	verif.Ensures("claimed-service-account-is-proved", id == nil || proxy.Metadata.ServiceAccount == "" || id.ServiceAccount == proxy.Metadata.ServiceAccount)
+	verif.Ensures("no-match-is-an-error", id != nil || !verif.Exists(func(i int) bool {
+		return 0 <= i && i < len(identities) && idMatches(proxy, identities[i])
+	}))
+	verif.Ensures("proxy-untouched", proxy.VerifiedIdentity == verif.Old(func() *spiffe.Identity { return proxy.VerifiedIdentity }))
+}
+
+//verif:invariant checkConnectionIdentity 1
+func invCheckConnectionIdentity(proxy *model.Proxy, identities []string, rangeindex int) bool {
+	return rangeindex < len(identities) &&
+		proxy.Metadata != nil && proxy.VerifiedIdentity == verif.Old(func() *spiffe.Identity { return proxy.VerifiedIdentity }) &&
+		proxy.ConfigNamespace == verif.Old(func() string { return proxy.ConfigNamespace }) &&
+		proxy.Metadata == verif.Old(func() *model.NodeMetadata { return proxy.Metadata }) &&
+		proxy.Metadata.ServiceAccount == verif.Old(func() string { return proxy.Metadata.ServiceAccount }) &&
+		!verif.Exists(func(i int) bool { return 0 <= i && i <= rangeindex && idMatches(proxy, identities[i]) })
+}
+
+// permitted is the statement's release rule for one SDS resource: gateway key material only for
+// references verified by a grant; secrets only from the proxy's own verified namespace and only if
+// it is authorised to read them (CA certificates are public within the namespace); ConfigMap CA
+// bundles are public; anything else is never released.
+func permitted(r SecretResource, proxy *model.Proxy, secrets credscontroller.Controller) bool {
+	switch r.ResourceType {
+	case credentials.KubernetesGatewaySecretType:
+		return proxy.MergedGateway != nil && proxy.MergedGateway.VerifiedCertificateReferences.Contains(r.ResourceName)
+	case credentials.KubernetesConfigMapType:
+		return true
+	case credentials.KubernetesSecretType:
+		return r.Namespace == proxy.VerifiedIdentity.Namespace &&
+			(strings.HasSuffix(r.Name, securitymodel.SdsCaSuffix) ||
+				secrets.Authorize(proxy.VerifiedIdentity.ServiceAccount, proxy.VerifiedIdentity.Namespace) == nil)
+	}
+	return false
+}
+
+func allPermittedFrom(allowed, resources []SecretResource, upto int, proxy *model.Proxy, secrets credscontroller.Controller) bool {
+	return verif.Forall(func(i int) bool {
+		return !(0 <= i && i < len(allowed)) || (permitted(allowed[i], proxy, secrets) &&
+			verif.Exists(func(j int) bool { return 0 <= j && j < upto && j < len(resources) && allowed[i] == resources[j] }))
+	})
+}
+
+//verif:contract filterAuthorizedResources
+//verif:prop C11
+func ctFilterAuthorizedResources(resources []SecretResource, proxy *model.Proxy, secrets credscontroller.Controller) {
+	verif.Requires("verified-proxy", proxy != nil && proxy.VerifiedIdentity != nil && secrets != nil)
+	out := filterAuthorizedResources(resources, proxy, secrets)
+	// from the statement: "only for secrets in the proxy's own verified namespace that it is authorised to
+	// read, or for references explicitly verified by a grant ... never across namespaces"
+	verif.Ensures("only-permitted-requested-resources", allPermittedFrom(out, resources, len(resources), proxy, secrets))
+	verif.Ensures("fresh-result", len(out) == 0 || verif.Fresh(out))
+}
+
+//verif:invariant filterAuthorizedResources 1
+func invFilterAuthorizedResources(resources, allowedResources []SecretResource, proxy *model.Proxy, secrets credscontroller.Controller, authzResult *bool, rangeindex int) bool {
+	return rangeindex < len(resources) &&
+		(authzResult == nil || *authzResult == (secrets.Authorize(proxy.VerifiedIdentity.ServiceAccount, proxy.VerifiedIdentity.Namespace) == nil)) &&
+		(len(allowedResources) == 0 || verif.Fresh(allowedResources)) &&
+		allPermittedFrom(allowedResources, resources, rangeindex+1, proxy, secrets)
+}
+
+// ---------------------------------------------------------------------------------------------
+// C03 / C04 / C05: the delta subscription fold
+// ---------------------------------------------------------------------------------------------
+
+func hasName(s sets.String, x string) bool {
+	_, ok := s[x]
+	return ok
+}
+
+func inStrings(names []string, n int, x string) bool {
+	return verif.Exists(func(i int) bool { return 0 <= i && i < n && i < len(names) && names[i] == x })
+}
+
+func hasVersion(m map[string]string, x string) bool {
+	_, ok := m[x]
+	return ok
+}
+
+// dwrAsked: x is subscribed after folding the request into the old subscription, before the
+// unsubscriptions: it was subscribed, or is newly subscribed, or is a retained resource the client
+// reports on reconnect.
+func dwrAsked(existing sets.String, request *discovery.DeltaDiscoveryRequest, x string) bool {
+	return verif.Old(func() bool { return hasName(existing, x) }) ||
+		inStrings(request.ResourceNamesSubscribe, len(request.ResourceNamesSubscribe), x) ||
+		hasVersion(request.InitialResourceVersions, x)
+}
+
+//verif:contract deltaWatchedResources
+//verif:prop C03 C04 C05
+func ctDeltaWatchedResources(existing sets.String, request *discovery.DeltaDiscoveryRequest) {
+	verif.Requires("request-present", request != nil)
+	res, wildcard, changed := deltaWatchedResources(existing, request)
+	unsub := request.ResourceNamesUnsubscribe
+	// the server's record after the request = ((old ∪ subscribed ∪ retained) − unsubscribed) − {"*"}
+	verif.Ensures("record-is-the-fold", res != nil && verif.Forall(func(x string) bool {
+		return hasName(res, x) == (x != "*" && dwrAsked(existing, request, x) && !inStrings(unsub, len(unsub), x))
+	}))
+	verif.Ensures("updates-in-place", (existing == nil && verif.Fresh(res)) || (existing != nil && verif.Same(res, existing)))
+	verif.Ensures("wildcard", wildcard == ((dwrAsked(existing, request, "*") && !inStrings(unsub, len(unsub), "*")) || len(request.ResourceNamesSubscribe) == 0))
+	// from the statement (C04): a request that adds names (or drops names it had) is a subscription change
+	verif.Ensures("changed-iff-names-added-or-dropped", changed == (verif.Exists(func(x string) bool {
+		return (inStrings(request.ResourceNamesSubscribe, len(request.ResourceNamesSubscribe), x) || hasVersion(request.InitialResourceVersions, x)) &&
+			!verif.Old(func() bool { return hasName(existing, x) })
+	}) || verif.Exists(func(x string) bool {
+		return inStrings(unsub, len(unsub), x) && dwrAsked(existing, request, x)
+	})))
+	verif.Ensures("request-untouched", verif.Forall(func(x string) bool {
+		return hasVersion(request.InitialResourceVersions, x) == verif.Old(func() bool { return hasVersion(request.InitialResourceVersions, x) })
+	}))
+}
+
+//verif:invariant deltaWatchedResources 1
+func invDWRSubscribe(existing, res sets.String, request *discovery.DeltaDiscoveryRequest, changed bool, rangeindex int) bool {
+	sub := request.ResourceNamesSubscribe
+	return res != nil && rangeindex < len(sub) &&
+		((existing == nil && verif.Fresh(res)) || (existing != nil && verif.Same(res, existing))) &&
+		verif.Forall(func(x string) bool {
+			return hasName(res, x) == (verif.Old(func() bool { return hasName(existing, x) }) || inStrings(sub, rangeindex+1, x))
+		}) &&
+		changed == verif.Exists(func(x string) bool {
+			return inStrings(sub, rangeindex+1, x) && !verif.Old(func() bool { return hasName(existing, x) })
+		})
+}
+
+//verif:invariant deltaWatchedResources 2
+func invDWRInitial(existing, res sets.String, request *discovery.DeltaDiscoveryRequest, changed bool) bool {
+	sub := request.ResourceNamesSubscribe
+	initial := request.InitialResourceVersions
+	return res != nil &&
+		((existing == nil && verif.Fresh(res)) || (existing != nil && verif.Same(res, existing))) &&
+		verif.Forall(func(x string) bool {
+			return hasName(res, x) == (verif.Old(func() bool { return hasName(existing, x) }) || inStrings(sub, len(sub), x) ||
+				(hasVersion(initial, x) && verif.Visited(initial, x)))
+		}) &&
+		changed == verif.Exists(func(x string) bool {
+			return (inStrings(sub, len(sub), x) || (hasVersion(initial, x) && verif.Visited(initial, x))) &&
+				!verif.Old(func() bool { return hasName(existing, x) })
+		})
+}
+
+//verif:invariant deltaWatchedResources 3
+func invDWRUnsubscribe(existing, res sets.String, request *discovery.DeltaDiscoveryRequest, changed bool, rangeindex int) bool {
+	sub := request.ResourceNamesSubscribe
+	unsub := request.ResourceNamesUnsubscribe
+	return res != nil && rangeindex < len(unsub) &&
+		((existing == nil && verif.Fresh(res)) || (existing != nil && verif.Same(res, existing))) &&
+		verif.Forall(func(x string) bool {
+			return hasName(res, x) == (dwrAsked(existing, request, x) && !inStrings(unsub, rangeindex+1, x))
+		}) &&
+		changed == (verif.Exists(func(x string) bool {
+			return (inStrings(sub, len(sub), x) || hasVersion(request.InitialResourceVersions, x)) && !verif.Old(func() bool { return hasName(existing, x) })
+		}) || verif.Exists(func(x string) bool {
+			return inStrings(unsub, rangeindex+1, x) && dwrAsked(existing, request, x)
+		}))
 }
